@@ -250,6 +250,29 @@ theorem history_slots_any (s : TdfSt) (ops : List Op) (hops : ∀ op ∈ ops, Ta
     have h2 := ih (step s op).1 (fun o ho => hops o (by simp [ho]))
     exact ⟨h2.1.trans h1.1, h2.2.trans h1.2⟩
 
+/-! ### the header on any table (session 5) -/
+
+theorem take_writeAt (v new : Bytes) (off k : Nat) (hk : k ≤ off) (hv : k ≤ v.length) :
+    (writeAt v off new).take k = v.take k := by
+  unfold writeAt
+  split
+  · rw [List.append_assoc, List.take_append_of_le_length (by simp [List.length_take]; omega), List.take_take]
+    congr 1; omega
+  · rw [List.append_assoc, List.take_append_of_le_length hv]
+
+/-- ANY state — table in any order, gaps —: a removal of a block stored behind the header leaves the 64 header bytes as they were
+    (signature, version, table length, dates); no layout assumed -/
+theorem remove_header_untouched_any (s : TdfSt) (t : Nat) (now : Int) (pos : Nat) (hfind : findType t s.entries = some pos)
+    (hoff : 64 ≤ (s.entries.getD pos unusedEntry).off) (hv : 64 ≤ s.view.length) :
+    (removeBlock s t now).1.view.take 64 = s.view.take 64 := by
+  unfold removeBlock
+  simp only [hfind, truncateAt]
+  generalize s.entries.getD pos unusedEntry = old at *
+  generalize ((List.map (shiftAfter old) (List.take pos s.entries ++ List.drop (pos + 1) s.entries) ++ _).flatMap Entry.enc) = tab
+  have h1 : 64 ≤ (writeAt s.view (slotPos 0) tab).length := by rw [writeAt_length]; omega
+  rw [List.take_take, show min 64 (old.off.toNat + (List.drop (old.off + old.size).toNat (writeAt s.view (slotPos 0) tab)).length) = 64 by omega]
+  rw [take_writeAt _ _ _ _ (by omega) h1, take_writeAt _ _ _ _ (by simp [slotPos]) hv]
+
 /-- non-vacuity: a real removal on a table in foreign order (live entry behind an unused slot) -/
 example : (removeBlock ⟨[], [], [⟨0, 0, 1000, 0, 0, 0, 0, []⟩, ⟨11, 1, 936, 64, 0, 0, 0, []⟩], 2⟩ 11 5).1.entries.length = 2 := by decide
 
